@@ -127,3 +127,17 @@ Print Assumptions C05_shared_link_refuted.
 Theorem C05_shared_link_distinct_counts : forall reps next, NoDup reps -> transfer_faithful (assign false next reps).
 Proof. exact shared_link_distinct_reps_ok. Qed.
 Print Assumptions C05_shared_link_distinct_counts.
+
+(* the generic add(): a declarative circuit and a raw circuit structure both end in add_sub_circuit (the copying path), a plain
+   operation in add_operation -- from the dispatch table and class hierarchy read from the source (Gen/Flags.v (j)) *)
+From Coq Require Import String.
+From QCE Require C05.Dispatch.
+Theorem C05_generic_add_routes_nested_arguments_to_the_copying_path :
+  Dispatch.final_method Dispatch.ADeclarative = Some "add_sub_circuit"%string
+  /\ Dispatch.final_method Dispatch.AStructure = Some "add_sub_circuit"%string
+  /\ Dispatch.final_method Dispatch.ALeaf = Some "add_operation"%string.
+Proof. exact Dispatch.add_routes. Qed.
+Theorem C05_generic_add_copies_every_nested_argument : forall k, k <> Dispatch.ALeaf -> Dispatch.copied_on_add k = true.
+Proof. exact Dispatch.nested_arguments_are_copied. Qed.
+Print Assumptions C05_generic_add_routes_nested_arguments_to_the_copying_path.
+Print Assumptions C05_generic_add_copies_every_nested_argument.
